@@ -103,7 +103,7 @@ class SkelPF:
     def cellh_lines(self, lv):
         nd, nb, nf = self.nd, self.nboxes[lv], self.nf
         zeros = ",".join(["0"] * nd)
-        out = ["1\n", "1\n", f"{nf}\n", "0\n", f"({nb} 0\n"]
+        out = ["1\n", "1\n", f"{getattr(self, 'cellh_nf', None) or nf}\n", "0\n", f"({nb} 0\n"]
         for b in range(nb):
             segs = ["(("]
             for d in range(nd):
